@@ -86,14 +86,19 @@ package bbolt
 
 //@ ghost var lastpage int      -- the page most recently decoded from a read buffer (pageInBuffer)
 
+// bufpage(arr, off, id): the page with the given id inside a byte buffer (A-unsafe: &b[id*pageSize])
+//@ uninterp func bufpage(arr int, off int, id common.Pgid) *common.Page
+//@ axiom [bufpage.inj] forall a int, o int, i common.Pgid, j common.Pgid :: i != j ==> bufpage(a, o, i) != bufpage(a, o, j)
+//@ axiom [metaof.inj] forall p *common.Page, q *common.Page :: p != q ==> metaof(p) != metaof(q)
+
 //@ func (*DB).pageInBuffer
 //@   trusted
-//@   ensures result != nil && lastpage == result
+//@   ensures result != nil && lastpage == result && result == bufpage(arrayof(b), offof(b), id)
 //@   ensures forall m *common.Meta :: allocated(m) ==> metaof(result) != m     -- the view into a private byte buffer aliases no existing Meta (A-unsafe)
 //@   modifies lastpage
 
 //@ func (*DB).meta
-//@   props C11 C01 C06 C03
+//@   props C11 C01 C06 C03 C02 C12
 //@   requires db.meta0 != nil && db.meta1 != nil
 //@   panics when !metavalid(db.meta0) && !metavalid(db.meta1)
 //@   ensures [one] result == db.meta0 || result == db.meta1
@@ -135,8 +140,8 @@ package bbolt
 //@ func struct_writeAt.writeAt
 //@   trusted
 //@   returns (n, err)
-//@   ensures nwrites == old(nwrites) + 1 && unsynced == old(unsynced) + 1 && lastwriteoff == off && lastwritelen == len(b)
-//@   modifies nwrites, unsynced, lastwriteoff, lastwritelen
+//@   ensures nwrites == old(nwrites) + 1 && unsynced == old(unsynced) + 1 && lastwriteoff == off && lastwritelen == len(b) && lastwritearr == arrayof(b)
+//@   modifies nwrites, unsynced, lastwriteoff, lastwritelen, lastwritearr
 
 //@ func fdatasync
 //@   trusted
@@ -161,7 +166,7 @@ package bbolt
 //@ pure func dbmeta(db *DB) *common.Meta = db.meta1.txid > db.meta0.txid ? (metavalid(db.meta1) ? db.meta1 : db.meta0) : (metavalid(db.meta0) ? db.meta0 : db.meta1)
 
 //@ func (*Tx).init
-//@   props C03 C02 C06
+//@   props C03 C02 C06 C01
 //@   requires db != nil && db.meta0 != nil && db.meta1 != nil && (metavalid(db.meta0) || metavalid(db.meta1))
 //@   requires tx != nil && dbmeta(db).txid < 18446744073709551615
 //@   ensures [db] tx.db == db && tx.meta != nil && tx.meta != db.meta0 && tx.meta != db.meta1
@@ -221,7 +226,7 @@ package bbolt
 
 //@ func (*Tx).rollback
 //@   ensures [batchmu] old(tx.db) != nil ==> old(tx.db).batchMu.held == old(tx.db.batchMu.held)
-//@   props C08 C03 C07
+//@   props C08 C03 C07 C02 C06 C10 C13
 //@   requires tx.db != nil && tx.writable ==> tx.db.rwlock.held && tx.meta != nil && tx.db.freelist != nil
 //@   requires tx.db != nil && tx.writable && tx.db.data != nil ==> tx.db.meta0 != nil && tx.db.meta1 != nil && (metavalid(tx.db.meta0) || metavalid(tx.db.meta1))
 //@   requires tx.db != nil && !tx.writable ==> tx.db.mmaplock.rcount >= 1 && tx.meta != nil && !tx.db.metalock.held
@@ -297,7 +302,7 @@ package bbolt
 
 //@ func (*Tx).Commit
 //@   returns (err)
-//@   props C01 C03 C06 C07 C08 C18
+//@   props C01 C03 C06 C07 C08 C18 C02 C13
 //@   requires !tx.managed
 //@   requires tx.db != nil && tx.writable ==> tx.db.rwlock.held && tx.db.rwtx == tx && tx.meta != nil && tx.db.freelist != nil && !tx.db.metalock.held && tx.root.tx == tx
 //@   requires tx.db != nil && tx.writable ==> tx.db.pageSize >= 512 && tx.db.pageSize <= 16777216 && tx.meta.magic == common.Magic && tx.meta.version == common.Version
@@ -326,7 +331,7 @@ package bbolt
 //@ func (*DB).beginRWTx
 //@   returns (t, err)
 //@   ensures [batchmu] db.batchMu.held == old(db.batchMu.held)
-//@   props C03 C10 C17 C02
+//@   props C03 C10 C17 C02 C06
 //@   requires !db.metalock.held && (db.readOnly || !db.rwlock.held)
 //@   requires !db.readOnly && db.opened && db.data != nil ==> db.meta0 != nil && db.meta1 != nil && (metavalid(db.meta0) || metavalid(db.meta1)) && dbmeta(db).txid < 18446744073709551615 && db.freelist != nil
 //@   ensures [readonly] db.readOnly ==> err == berrors.ErrDatabaseReadOnly && t == nil && calls("sync.(*Mutex).Lock", db.rwlock) == old(calls("sync.(*Mutex).Lock", db.rwlock))
@@ -426,3 +431,185 @@ package bbolt
 
 //@ F [batch.runonce] props C16 : callers bbolt.(*batch).run subset bbolt.run$bound, bbolt.(*batch).trigger
 //@ F [batch.trigger] props C16 : callers bbolt.(*batch).trigger subset bbolt.(*DB).Batch, bbolt.trigger$bound
+
+// ---------------------------------------------------------------- C19: integrity check
+
+//@ pure func isfreed(freed map[common.Pgid]bool, id common.Pgid) bool = has(freed, id) && freed[id]
+
+//@ func verifyPageReachable
+//@   props C19 C07
+//@   requires p != nil && reachable != nil && p.id + p.overflow + 1 <= 18446744073709551615
+//@   ensures [marked] forall i common.Pgid :: p.id <= i && i <= p.id + p.overflow ==> has(reachable, i)
+//@   ensures [kept] forall i common.Pgid :: old(has(reachable, i)) ==> has(reachable, i)
+//@   ensures [bounds] p.id > hwm ==> sent(ch) > old(sent(ch))
+//@   ensures [dup] (exists i common.Pgid :: p.id <= i && i <= p.id + p.overflow && old(has(reachable, i))) ==> sent(ch) > old(sent(ch))
+//@   ensures [freed] (exists i common.Pgid :: p.id <= i && i <= p.id + p.overflow && isfreed(freed, i)) ==> sent(ch) > old(sent(ch))
+//@   ensures [type] p.flags != common.BranchPageFlag && p.flags != common.LeafPageFlag ==> sent(ch) > old(sent(ch))
+//@   ensures [clean] p.id <= hwm && (forall i common.Pgid :: p.id <= i && i <= p.id + p.overflow ==> !old(has(reachable, i)) && !isfreed(freed, i)) && (p.flags == common.BranchPageFlag || p.flags == common.LeafPageFlag) ==> sent(ch) == old(sent(ch))
+//@   loop 0 invariant [range] 0 <= i && i <= p.overflow + 1
+//@   loop 0 invariant [marked] forall j common.Pgid :: p.id <= j && j < p.id + i ==> has(reachable, j)
+//@   loop 0 invariant [kept] forall j common.Pgid :: old(has(reachable, j)) ==> has(reachable, j)
+//@   loop 0 invariant [only] forall j common.Pgid :: has(reachable, j) ==> old(has(reachable, j)) || (p.id <= j && j < p.id + i)
+//@   loop 0 invariant [dup] (exists j common.Pgid :: p.id <= j && j < p.id + i && old(has(reachable, j))) ==> sent(ch) > old(sent(ch))
+//@   loop 0 invariant [nodup] (forall j common.Pgid :: p.id <= j && j < p.id + i ==> !old(has(reachable, j))) && p.id <= hwm ==> sent(ch) == old(sent(ch))
+//@   loop 0 invariant [mono] sent(ch) >= old(sent(ch)) && (p.id > hwm ==> sent(ch) > old(sent(ch)))
+//@   loop 0 invariant [freed] isFreed <==> (exists j common.Pgid :: p.id <= j && j < p.id + i && isfreed(freed, j))
+//@   loop 0 invariant [page] p.id == old(p.id) && p.overflow == old(p.overflow) && p.flags == old(p.flags)
+//@   modifies mapof(reachable)
+
+//@ func verifyKeyOrder
+//@   props C19 C07
+//@   callback ensures true
+//@   ensures [first] index == 0 && old(previousKey != nil && cmp(previousKey, key) > 0) ==> sent(ch) > old(sent(ch))
+//@   ensures [less] index > 0 && old(cmp(previousKey, key)) > 0 ==> sent(ch) > old(sent(ch))
+//@   ensures [equal] index > 0 && old(cmp(previousKey, key)) == 0 ==> sent(ch) > old(sent(ch))
+//@   ensures [max] old(maxKeyOpen != nil && cmp(key, maxKeyOpen) >= 0) ==> sent(ch) > old(sent(ch))
+//@   ensures [clean] !(index == 0 && old(previousKey != nil && cmp(previousKey, key) > 0)) && !(index > 0 && old(cmp(previousKey, key)) >= 0) && !old(maxKeyOpen != nil && cmp(key, maxKeyOpen) >= 0) ==> sent(ch) == old(sent(ch))
+
+// ---------------------------------------------------------------- C17 / C12: open, lock, initialise, close
+
+//@ func flock
+//@   returns (err)
+//@   props C17
+//@   requires db != nil && db.file != nil
+//@   ensures [mode] nflock > old(nflock) && lastflockop == (exclusive ? 6 : 5)     -- LOCK_NB|LOCK_EX = 4|2, LOCK_NB|LOCK_SH = 4|1
+//@   ensures [acquired] err == nil ==> flockok
+//@   modifies lastflockop, flockok, nflock
+//@   loop 0 invariant flag == (exclusive ? 6 : 5) && nflock >= old(nflock) && (nflock > old(nflock) ==> lastflockop == (exclusive ? 6 : 5))
+
+//@ func funlock
+//@   returns (err)
+//@   props C17
+//@   ensures lastflockop == 8 && nflock == old(nflock) + 1     -- LOCK_UN
+//@   modifies lastflockop, flockok, nflock
+
+//@ func (*DB).close
+//@   returns (err)
+//@   props C17 C03
+//@   ensures [closed] !db.opened
+//@   ensures [file] old(db.opened) ==> db.file == nil
+//@   ensures [unlock] old(db.opened) && old(db.file) != nil && !db.readOnly ==> calls("funlock", db) == old(calls("funlock", db)) + 1 && lastflockop == 8
+//@   ensures [nounlock] !old(db.opened) || db.readOnly ==> calls("funlock", db) == old(calls("funlock", db))
+//@   ensures [filecount] old(db.opened) && old(db.file) != nil ==> calls("os.(*File).Close", old(db.file)) == old(calls("os.(*File).Close", db.file)) + 1
+//@   ensures [same] db.readOnly == old(db.readOnly)
+
+//@ func (*DB).init
+//@   returns (err)
+//@   props C12 C01
+//@   requires db != nil && db.pageSize >= 512 && db.pageSize <= 16777216
+//@   ensures [onewrite] nwrites == old(nwrites) + 1 && lastwriteoff == 0 && lastwritelen == 4 * db.pageSize
+//@   ensures [synced] err == nil ==> unsynced == 0
+//@   ensures [meta0] let m := metaof(bufpage(lastwritearr, 0, 0)) in m.magic == common.Magic && m.version == common.Version && m.pageSize == db.pageSize && m.freelist == 2 && m.root.root == 3 && m.root.sequence == 0 && m.pgid == 4 && m.txid == 0 && m.checksum == msum(m)
+//@   ensures [meta1] let m := metaof(bufpage(lastwritearr, 0, 1)) in m.magic == common.Magic && m.version == common.Version && m.pageSize == db.pageSize && m.freelist == 2 && m.root.root == 3 && m.root.sequence == 0 && m.pgid == 4 && m.txid == 1 && m.checksum == msum(m)
+//@   ensures [pages] bufpage(lastwritearr, 0, 0).id == 0 && bufpage(lastwritearr, 0, 0).flags == common.MetaPageFlag && bufpage(lastwritearr, 0, 1).id == 1 && bufpage(lastwritearr, 0, 1).flags == common.MetaPageFlag
+//@   ensures [freelistpage] bufpage(lastwritearr, 0, 2).id == 2 && bufpage(lastwritearr, 0, 2).flags == common.FreelistPageFlag && bufpage(lastwritearr, 0, 2).count == 0
+//@   ensures [leafpage] bufpage(lastwritearr, 0, 3).id == 3 && bufpage(lastwritearr, 0, 3).flags == common.LeafPageFlag && bufpage(lastwritearr, 0, 3).count == 0
+//@   loop 0 invariant [i] 0 <= i && i <= 2 && len(buf) == 4 * db.pageSize && offof(buf) == 0 && nwrites == old(nwrites) && unsynced == old(unsynced)
+//@   loop 0 invariant [m0] i >= 1 ==> (let m := metaof(bufpage(arrayof(buf), 0, 0)) in m.magic == common.Magic && m.version == common.Version && m.pageSize == db.pageSize && m.freelist == 2 && m.root.root == 3 && m.root.sequence == 0 && m.pgid == 4 && m.txid == 0 && m.checksum == msum(m)) && bufpage(arrayof(buf), 0, 0).id == 0 && bufpage(arrayof(buf), 0, 0).flags == common.MetaPageFlag
+//@   loop 0 invariant [m1] i >= 2 ==> (let m := metaof(bufpage(arrayof(buf), 0, 1)) in m.magic == common.Magic && m.version == common.Version && m.pageSize == db.pageSize && m.freelist == 2 && m.root.root == 3 && m.root.sequence == 0 && m.pgid == 4 && m.txid == 1 && m.checksum == msum(m)) && bufpage(arrayof(buf), 0, 1).id == 1 && bufpage(arrayof(buf), 0, 1).flags == common.MetaPageFlag
+
+//@ ghost var lastopenflag int      -- flag argument of the most recent open of the data file
+//@ ghost var lastflockdb int       -- the DB whose file was most recently locked
+
+//@ func DB.openFile
+//@   trusted
+//@   params (path, flag, mode)
+//@   returns (f, err)
+//@   ensures lastopenflag == flag && (err == nil ==> f != nil && fresh(f))
+//@   modifies lastopenflag
+
+//@ func newFreelist
+//@   trusted
+//@   ensures result != nil
+//@   modifies nothing
+
+//@ func (*DB).loadFreelist$1
+//@   props C13
+//@   requires db != nil && db.meta0 != nil && db.meta1 != nil && (metavalid(db.meta0) || metavalid(db.meta1))
+//@   ensures [loaded] db.freelist != nil
+//@   ensures [synced] dbmeta(db).freelist != common.PgidNoFreelist ==> (let f := ifaceref(db.freelist) in calls("freelist.Interface.Read", f) == old(calls("freelist.Interface.Read", f)) + 1 && calls("freelist.Interface.Init", f) == old(calls("freelist.Interface.Init", f))) && lastread == dbpage(db, dbmeta(db).freelist)
+//@   ensures [scanned] dbmeta(db).freelist == common.PgidNoFreelist ==> (let f := ifaceref(db.freelist) in calls("freelist.Interface.Init", f) == old(calls("freelist.Interface.Init", f)) + 1 && calls("freelist.Interface.Read", f) == old(calls("freelist.Interface.Read", f))) && calls("(*DB).freepages", db) == old(calls("(*DB).freepages", db)) + 1
+//@   ensures [same] db.meta0 == old(db.meta0) && db.meta1 == old(db.meta1) && db.data == old(db.data) && dbmeta(db) == old(dbmeta(db)) && metavalid(db.meta0) == old(metavalid(db.meta0)) && metavalid(db.meta1) == old(metavalid(db.meta1))
+
+//@ func (*DB).loadFreelist
+//@   props C13
+//@   requires db != nil && db.meta0 != nil && db.meta1 != nil && (metavalid(db.meta0) || metavalid(db.meta1))
+//@   ensures [once] db.freelistLoad.done
+//@   ensures [loaded] !old(db.freelistLoad.done) ==> db.freelist != nil
+//@   ensures [noreload] old(db.freelistLoad.done) ==> db.freelist == old(db.freelist)
+
+//@ func Open
+//@   returns (db, err)
+//@   props C17 C11 C13
+//@   requires options != nil && (options.PageSize == 0 || options.PageSize >= 512) && options.PageSize <= 16777216 && options.InitialMmapSize >= 0 && common.DefaultPageSize >= 512 && common.DefaultPageSize <= 16777216
+//@   callback ensures true
+//@   ensures [flagro] old(options.ReadOnly) ==> lastopenflag == 0 || calls("DB.openFile", 0) == old(calls("DB.openFile", 0))     -- O_RDONLY, no O_CREATE
+//@   ensures [flagrw] !old(options.ReadOnly) && err == nil ==> lastopenflag == 66                                               -- O_RDWR|O_CREATE
+//@   ensures [lockmode] err == nil && calls("(*DB).Begin", db) == old(calls("(*DB).Begin", db)) ==> lastflockop == (old(options.ReadOnly) ? 5 : 6) && flockok     -- shared for read-only, exclusive otherwise (the flush transaction of a nosync->sync reopen is abstracted)
+//@   ensures [roflag] err == nil && calls("(*DB).Begin", db) == old(calls("(*DB).Begin", db)) ==> db != nil && db.readOnly == old(options.ReadOnly) && db.opened
+//@   ensures [rofast] err == nil && old(options.ReadOnly) ==> calls("(*DB).Begin", db) == old(calls("(*DB).Begin", db)) && (calls("(*DB).init", db) == old(calls("(*DB).init", db)) ==> nwrites == old(nwrites))
+//@   ensures [failed] err != nil ==> db == nil
+//@   ensures [pagesize] err == nil && calls("(*DB).init", db) == old(calls("(*DB).init", db)) ==> calls("(*DB).getPageSize", db) == old(calls("(*DB).getPageSize", db)) + 1
+//@   skip pre/Begin because the freshly opened database satisfies the begin preconditions by construction of Open (map validated by DB.mmap, freelist loaded); the chain through sync.Pool/logger callbacks is outside the subset
+//@   skip pre/Commit because see pre/Begin
+//@   skip nopanic/Commit because strict mode and tree invariants of the flush transaction are covered by the contracts of Commit itself
+//@   skip pre/loadFreelist because DB.mmap's contract establishes it on success; logger callbacks in between are outside the subset
+//@   skip pre/hasSyncedFreelist because see pre/loadFreelist
+//@   skip pre/meta because see pre/loadFreelist
+//@   skip nopanic@hasSyncedFreelist because see pre/loadFreelist
+
+// user-supplied loggers touch no database state (A-lib-pure)
+//@ func Logger.Debug
+//@   trusted
+//@   modifies nothing
+
+//@ func Logger.Debugf
+//@   trusted
+//@   modifies nothing
+
+//@ func Logger.Error
+//@   trusted
+//@   modifies nothing
+
+//@ func Logger.Errorf
+//@   trusted
+//@   modifies nothing
+
+//@ func Logger.Info
+//@   trusted
+//@   modifies nothing
+
+//@ func Logger.Infof
+//@   trusted
+//@   modifies nothing
+
+//@ func Logger.Warning
+//@   trusted
+//@   modifies nothing
+
+//@ func Logger.Warningf
+//@   trusted
+//@   modifies nothing
+
+//@ func Logger.Fatal
+//@   trusted
+//@   modifies nothing
+
+//@ func Logger.Fatalf
+//@   trusted
+//@   modifies nothing
+
+//@ func Logger.Panic
+//@   trusted
+//@   modifies nothing
+
+//@ func Logger.Panicf
+//@   trusted
+//@   modifies nothing
+
+
+//@ F [mmap.prot] props C17 : constarg bbolt.mmap calls golang.org/x/sys/unix.Mmap arg 3 == 1
+//@ F [truncate.callers] props C17 C18 : callers os.(*File).Truncate subset bbolt.(*DB).grow
+//@ F [writeat.callers] props C17 C06 C01 : callers struct_writeAt.writeAt subset bbolt.(*Tx).write, bbolt.(*Tx).writeMeta, bbolt.(*DB).init
+//@ F [flock.callers] props C17 : callers bbolt.flock subset bbolt.Open
+//@ F [funlock.callers] props C17 : callers bbolt.funlock subset bbolt.(*DB).close
